@@ -3,10 +3,10 @@
 import json, subprocess
 CHECKS = {
  "C10": ("exploration", "race detector + solo-vs-concurrent differential + schedule perturbation at hooked sync points + offline trace checker + deadlock watchdog + forced-worker-count runs of every internal parallel section",
-         "A stress mix of every public entry point (blocking writers, equal sizes so pools collide) runs in a -race build and in a normal build where each concurrent result must equal its solo result; multi-worker lossy encodes run under seeded perturbation policies at the hooked row-synchronisation points, must equal the single-worker bytes, and their event traces are checked against the row protocol; a hung child is a deadlock only if its goroutine dump shows workers parked in the row wait; every internal parallel section is entered above its size threshold with forced worker counts and 3 calls in flight, results must equal the one-worker solo result (std and -race builds).",
+         "A stress mix of every public entry point (blocking writers, equal sizes so pools collide) runs in a -race build and in a normal build where each concurrent result must equal its solo result; multi-worker lossy encodes run under seeded perturbation policies at the hooked row-synchronisation points, must equal the single-worker bytes, and their event traces are checked against the row protocol; a hung child is a deadlock only if its goroutine dump shows workers parked in the row wait; every internal parallel section is entered above its size threshold with forced worker counts and 3 calls in flight, results must equal the one-worker solo result (std and -race builds); cold-start children: fresh processes whose first library calls are 8 goroutines released together into one operation (std and -race builds).",
          "Schedules are sampled, not enumerated; the trace order is sound because MB-end is logged before the signal and MB-begin after the wait returns.", "3/C10"),
  "C11": ("exploration", "history monitor: every result in long-lived processes vs the same call as first call of a fresh process; returned buffers re-hashed; pool-reuse counters prove collisions",
-         "All ordered pairs of a 43-entry core plus random call sequences (length 3..30) over a catalogue built to collide in every pool (Encode/Decode, animation, mux, the public sharpyuv functions, readers that work on the caller's own bytes), with GC disabled (pooled objects survive) or forced between calls; any deviation from the fresh-process reference or any change to a previously returned buffer is a violation.",
+         "All ordered pairs of a 43-entry core plus random call sequences (length 3..30) over a catalogue built to collide in every pool (Encode/Decode, animation, mux, the public sharpyuv functions, readers that work on the caller's own bytes, values handed out and then modified by the caller), with GC disabled (pooled objects survive) or forced between calls; any deviation from the fresh-process reference or any change to a previously returned buffer is a violation.",
          "Pool hook H4 counts actual reuse; a run in which some pool was never hit fails as 'observed nothing'.", "3/C11"),
  "C13": ("exploration", "four-build differential (AVX2 / SSE2 / portable overlay build / js-wasm build run by node) on pipeline digests + kernel-level exerciser + cross-compilation of the module for GOOS/GOARCH targets",
          "The same case list is executed by three amd64 builds of the current tree (assembly with AVX2, assembly without, portable overlay) and, for a fixed fraction of the cases, by a js/wasm build under node; all digests must coincide; go build ./... is run for 14 representative targets in quick and for every `go tool dist list` pair in thorough.",
@@ -18,22 +18,22 @@ CHECKS = {
          "Random frame histories from a mutation grammar are encoded, read back and played; pictures smaller than the canvas occur anywhere in a history; the normalised picture sequences, per-picture display times, total duration, loop count and canvas size must match; 1/8 of the histories add pre-encoded frames (AddRawFrame, AddFrame(NewBitstreamFrame)) alone, after one picture or in the middle of a history (durations up to 2^24 ms and above), expected canvases from the reference compositor; a script forces duration-overflow filler frames followed by an erase.",
          "Both sides are normalised by merging consecutive identical canvases; transparent pixels compare equal regardless of colour.", "3/C08"),
  "C09": ("exploration", "reference-model monitor: AnimDecoder vs an independent compositing model on programmatic animations, incl. exhaustive small domain and blend arithmetic",
-         "Every snapshot of every explored animation must equal the model's canvas; Reset must replay identically; returned snapshots are re-hashed after later calls; one animation in four hands its frames over as RGBA / 16-bit / paletted / wrapper / shifted-origin and sub-image NRGBA images. Thorough enumerates the complete 2-frame small domain (6.7M tuples) and all 2^32 (src a,dst a,src c,dst c) blend cases.",
+         "Every snapshot of every explored animation must equal the model's canvas; Reset must replay identically; returned snapshots are re-hashed after later calls; one non-opaque frame in six understates its alpha flag; one animation in four hands its frames over as RGBA / 16-bit / paletted / wrapper / shifted-origin and sub-image NRGBA images. Thorough enumerates the complete 2-frame small domain (6.7M tuples) and all 2^32 (src a,dst a,src c,dst c) blend cases.",
          "Blend oracle = exact special cases + libwebp's documented integer formula; unrealisable HasAlpha flags excluded.", "3/C09"),
  "C18": ("exploration", "history round-trip monitor for lossy / mixed-codec animations on the alpha plane (source alpha as oracle)",
          "Alpha-bearing frame histories x Lossless x AllowMixed x Quality x Kmin/Kmax; played-back alpha planes must equal the source alpha planes; codecs actually used per frame are read back.",
          "Frames with identical alpha planes are merged on both sides before comparison; colour is not compared.", "3/C18"),
  "C14": ("exploration", "history monitor: random Muxer call sequences checked against a model of what was put in, an independent RIFF walker, the Demuxer, the second parser and libwebp",
-         "Each accepted history's output is demuxed and compared field by field with the history (payload bytes, alpha, offsets/2*2, clamped durations, blend/dispose, loop, background, canvas, metadata); rejected histories must write nothing; histories include Assemble in the middle and twice, offsets and canvases at the 24-bit field limits and at 2^30 pixels, AddChunk with ids of its own, ALPH-prefixed lossless payloads, metadata at the 100 MiB limit and summing above 256 MiB; every fourth history hands its payloads over as adjacent sub-slices of one buffer.",
+         "Each accepted history's output is demuxed and compared field by field with the history (payload bytes, alpha, offsets/2*2, clamped durations, blend/dispose, loop, background, canvas, metadata); rejected histories must write nothing; histories include Assemble in the middle and twice, offsets and canvases at the 24-bit field limits and at 2^30 pixels, AddChunk with ids of its own, ALPH-prefixed lossless payloads, metadata at the 100 MiB limit and summing above 256 MiB; every fourth history hands its payloads over as adjacent sub-slices of one buffer; frames are added until the muxer refuses and the output must still be readable; a chunk present in the file must be found by the demuxer.",
          "Model of accepted input: durations clamped to [0,2^24-1], loop count to [0,65535], animated iff >1 frame, a positive duration, or a single frame that does not cover its canvas (only a one-frame animation can carry its rectangle; D11, repaired).", "3/C14"),
  "C16": ("exploration", "cross-view agreement monitor (Decode result as oracle for the header queries; five container views compared pairwise)",
-         "For every still that Decode accepts the header queries must succeed and match the decoded image; GetFeatures, DecodeConfig, Demuxer, animation reader and the independent walker must agree on canvas, animation flag, frame count, loop count; corpus includes Muxer-assembled animations with sub-rectangle first frames and canvases beyond 16 bits, and hand-assembled animations of 4095..65537 frames around any frame-count limit (accepted by all views or by none).",
+         "For every still that Decode accepts the header queries must succeed and match the decoded image; GetFeatures, DecodeConfig, Demuxer, animation reader and the independent walker must agree on canvas, animation flag, frame count, loop count; corpus includes Muxer-assembled animations with sub-rectangle first frames and canvases beyond 16 bits, lone frames at odd/even offsets, and hand-assembled animations of 4095..65537 frames around any frame-count limit (accepted by all views or by none).",
          "Hand-assembled variants that the strict walker flags are only compared among the views that accept them.", "3/C16"),
  "C17": ("fault_enumeration", "exhaustive truncation monitor: every prefix of every corpus file through Decode/DecodeConfig/GetFeatures",
          "Every cut point 0..len-1 of each file in a diverse corpus of valid stills is enumerated (exhaustive per file); a prefix result must be an error or equal the complete file's.",
          "Corpus files are small (<= 64 px) so that len(F) decodes per file stay cheap; thorough adds larger files with all cuts in the last 4 KiB and every 97th elsewhere.", "3/C17"),
  "C05": ("exploration", "hostile-input monitor in supervised child processes (recover/fatal/watchdog/alloc accounting/result well-formedness) + CPU-time scaling probe",
-         "Structure-aware mutation and hand-made declaration bombs against every decoding entry point (incl. ReadChunk, animation.Decode, readers without Len(), short reads, forced internal worker counts, extreme-aspect and Muxer-assembled seeds; playback past the end, Reset and replay, DecodeFrames called twice); each child logs the case before executing it, runs under ulimit -v, and measures TotalAlloc against a bound linear in input length and declared pixel area; hangs are judged only after three isolated re-runs; 108 repeated-unit input families are timed (process CPU time) at n and 4n units, super-linear growth is a violation only at ratio > 10 with >= 0.4 s CPU three times in a row.",
+         "Structure-aware mutation and hand-made declaration bombs against every decoding entry point (incl. ReadChunk, animation.Decode, readers without Len(), short reads, forced internal worker counts, extreme-aspect and Muxer-assembled seeds; playback past the end, Reset and replay, DecodeFrames called twice); each child logs the case before executing it, runs under ulimit -v, and measures TotalAlloc against a bound linear in input length and declared pixel area - where that is exceeded, the live heap of a second run sampled after forced collections decides; hangs are judged only after three isolated re-runs; 108 repeated-unit input families are timed (process CPU time) at n and 4n units, super-linear growth is a violation only at ratio > 10 with >= 0.4 s CPU three times in a row.",
          "Declared area comes from an over-approximating scanner; inputs whose declared-size bound exceeds 1.5 GiB are not executed (counted as inconclusive).", "3/C05"),
  "C12": ("exploration", "cross-process differential monitor over GOMAXPROCS values",
          "The same case list runs in child processes of one binary with GOMAXPROCS in {1,2,3,4,8,16,32}; digests of Encode bytes (every second lossy case with all options drawn, dithering included; a lossy-alpha family over alpha content x AlphaFiltering x AlphaCompression x AlphaQuality), Decode pixels and parallel frame decoding (also of animations with several undecodable frames) must equal the GOMAXPROCS=1 child's.",
@@ -45,10 +45,10 @@ CHECKS = {
          "Bit-exact comparison of Y/Cb/Cr (loop filter included) and of alpha+upsampled colour against libwebp over synthesized key frames covering the header/mode/token syntax (also with coefficients far beyond what an encoder produces), and over libwebp-written files; every ALPH file is also read twice from the same byte slice through the animation reader.",
          "libwebp 1.2.4 trusted as RFC 6386/WebP reference; outside the envelope where libwebp and x/image agree a disagreement of the two references is inconclusive.", "3/C04"),
  "C15": ("exploration", "metadata round-trip monitor (blobs as oracle, metadata-free encode as reference, independent walker)",
-         "Every subset of ICC/EXIF/XMP x blob classes x output kinds; blobs read back three ways, flags<=>chunks via the walker, payload/pixel identity against the metadata-free encode; two thirds of the cases draw every other encoder / animation option from its legal values.",
+         "Every subset of ICC/EXIF/XMP x blob classes x output kinds; blobs read back three ways, flags<=>chunks via the walker, payload/pixel identity against the metadata-free encode; two thirds of the cases draw every other encoder / animation option from its legal values; a chunk present in the file (empty ones included) must be found by the demuxer.",
          "Independent RIFF walker; empty blobs may be stored or omitted.", "3/C15"),
  "C20": ("exploration", "option-space totality and documented-equivalence monitor",
-         "Drives each documented illegal value, each legal boundary, random sentinel subsets vs explicit defaults (byte equality), nil options, lossy-only options on lossless, presets and boundary dimensions; derived equivalences (TargetPSNR ignored when TargetSize is set, QMin=QMax pins the search, QMin/QMax clamp the quality) and 'TargetPSNR must have an effect'; panics are caught per call.",
+         "Drives each documented illegal value, each legal boundary, random sentinel subsets vs explicit defaults (byte equality), nil options, lossy-only options on lossless, presets and boundary dimensions; derived equivalences (TargetPSNR ignored when TargetSize is set, QMin=QMax pins the search, QMin/QMax clamp the quality) 'TargetPSNR must have an effect', and Lossless+Exact returning every source byte with and without metadata; panics are caught per call.",
          "Documentation table transcribed from encode.go comments (each row cites its sentence); validity via walker + Decode.", "3/C20"),
  # id: (level, technique, level text, level note, design ref)
  "C01": ("exploration", "round-trip monitor: source image as oracle, libwebp for attribution",
@@ -57,7 +57,7 @@ CHECKS = {
  "C19": ("exploration", "byte-equality monitor over storage placements", "Same pixels stored in 20+ ways (views, strides, origins, wrapped views, types at and away from the origin) must give byte-identical files and leave every caller buffer untouched, with and without metadata (streaming and buffered writers); observes executions over image classes x options.", "Canonical reference = tight *image.NRGBA at origin; for non-NRGBA types the reference is the concrete type itself vs the same colours behind a wrapper, and for the 16-bit types also the NRGBA of their 8-bit reading.", "3/C19"),
  "C07": ("exploration", "round-trip monitor on the alpha plane (source alpha as oracle; libwebp for attribution)", "Compares the decoded alpha plane with the source over alpha pattern x AlphaCompression x AlphaFiltering x AlphaQuality x Method grids; quantised case checked against the documented level formula.", "Level formula transcribed from the encoder documentation (2+q/5, 16+8(q-70)); monotone-map reading of \"only quantised\".", "3/C07"),
  "C02": ("exploration", "structural conformance monitor + differential decode (libwebp, x/image)",
-         "Every emitted file is walked by an independent strict RIFF/VP8/VP8L/ALPH walker and decoded by three decoders whose outputs must agree (planes, and the colours the returned image reports; also through the animation reader); options drawn field-by-field from boundary sets with measured pairwise coverage.",
+         "Every emitted file is walked by an independent strict RIFF/VP8/VP8L/ALPH walker and decoded by three decoders whose outputs must agree (planes, and the colours the returned image reports; also through the animation reader); sources also as sub-image views of larger parents; options drawn field-by-field from boundary sets with measured pairwise coverage.",
          "Trusts libwebp 1.2.4 and x/image (2019) as independent implementations and the walker's reading of the container spec.", "3/C02"),
 }
 NOT_YET = {}
